@@ -741,7 +741,8 @@ def spec_required(kind, names, source):
     if kind == "partial":
         return set()
     if kind == "allRequired":
-        return {n for n, f in fields.items() if getattr(f, "_default", None) is None}
+        # every Field without an explicit default; a Constant has a fixed value and is carried over
+        return {n for n, f in fields.items() if not isinstance(f, Constant) and getattr(f, "_default", None) is None}
     req = set(source._required)
     if kind == "omit":
         return {r for r in req if r not in names}
